@@ -112,12 +112,16 @@ class Rig:
         self.full = PlayingPhaseWithHands(self.contract, adapt.hands_obj(deal))
         self.obs: Dict[str, ObservedPlayingPhase] = {}
         if observers:
-            self.obs = {s: ObservedPlayingPhase(self.contract, PL[s], {CARDS[x] for x in deal[s]}) for s in SEATS}
+            self.own_sets = {s: {CARDS[x] for x in deal[s]} for s in SEATS}       # the very objects the observers were constructed with
+            self.obs = {s: ObservedPlayingPhase(self.contract, PL[s], self.own_sets[s]) for s in SEATS}
         self.trump = trump_of(bid)
         self.ref = RP.Board(declarer, self.trump)
         self.hands = {s: set(deal[s]) for s in SEATS}
         self.plays: List[int] = []
-        self.dummy_gets_copy = (sum(min(v) for v in deal.values() if v) + SEATS.index(declarer)) % 2 == 1
+        # what the observer in the dummy seat is handed when dummy is exposed: nothing, a copy of the exposed cards (as every other
+        # observer), or the very set object it was constructed with (a caller that keeps one set per hand and passes it wherever asked)
+        self.dummy_mode = ('none', 'copy', 'alias')[(sum(min(v) for v in deal.values() if v) + SEATS.index(declarer)) % 3]
+        self.dummy_gets_copy = self.dummy_mode == 'copy'
         self.dummy_open = False
         self.dead_obs: set = set()
 
@@ -160,7 +164,9 @@ class Rig:
             # exposed cards to ALL four observers alike (the dummy-seat observer then holds them twice: as its own hand and as a copy)
             dm = self.ref.dummy
             for s, o in self.obs.items():
-                if s != dm or self.dummy_gets_copy:
+                if s == dm and self.dummy_mode == 'alias':
+                    o.set_dummy_hand(self.own_sets[dm])
+                elif s != dm or self.dummy_gets_copy:
                     o.set_dummy_hand({CARDS[x] for x in self.hands[dm]})
             self.dummy_open = True
 
